@@ -167,7 +167,10 @@ class Check:
 
     # ---- correspondence gate -------------------------------------------------------------
     def build_harness(self, race=False):
-        rc, out = sh(f"{VERIF}/bin/build_harness.sh" + (" -race" if race else ""), timeout=1200)
+        # the race build uses the plain binary too (sequential modes): both are always rebuilt from the current tree
+        rc, out = sh(f"{VERIF}/bin/build_harness.sh", timeout=1200)
+        if rc == 0 and race:
+            rc, out = sh(f"{VERIF}/bin/build_harness.sh -race", timeout=1200)
         if rc != 0:
             return False, out[-3000:]
         return True, ""
